@@ -12,7 +12,10 @@ Inductive mout : Type :=
 | OPut (c : chan)                      (* record written to the datastore *)
 | OCleanupChannel (chid : N * N * N)   (* env.CleanupChannel *)
 | OUnprotect (peer : N) (chid : N * N * N)  (* env.Unprotect(other party, tag) *)
-| ODropped (e : EventCode).            (* event cleared with ErrTerminated *)
+| ODropped (e : EventCode)             (* event cleared with ErrTerminated *)
+| OPlanned (e : EventCode) (before : Status) (handler : bool).
+   (* model-internal trace: an event was applied from status `before`;
+      `handler` = the state entry function was started for it *)
 
 Definition chan_id (c : chan) : N * N * N := (c_init c, c_resp c, c_tid c).
 
@@ -68,8 +71,10 @@ Definition m_step (m : mstate) (l : mlabel) : mstate * list mout :=
           | Applied c' h =>
               if is_final (c_status c') then
                 (mkM c' [] false true,
+                 OPlanned (fst e) (c_status (m_chan m)) false ::
                  ONotify (fst e) c' :: OPut c' :: map (fun x => ODropped (fst x)) q)
-              else (mkM c' q h false, [ONotify (fst e) c'; OPut c'])
+              else (mkM c' q h false,
+                    [OPlanned (fst e) (c_status (m_chan m)) h; ONotify (fst e) c'; OPut c'])
           end
       end
   | LHandlerDone =>
